@@ -43,6 +43,11 @@ def gen(rng, tier, k):
         ab["osu_meter"] = rng.choice([3, 5, 7])  # the time signature of an osu timing point does not move anything in time
     if sg in ("osu", "qua") and len(ab["tempo"]) > 1 and rng.random() < 0.4:
         ab["tempo_rows_reversed"] = True  # tempo entries listed out of time order in the source file
+    if rng.random() < 0.1:
+        only = [n for n in ab["notes"] if n[2] is not None]
+        if only and not ab.get("last_lane_empty") and {n[0] for n in only} == set(range(keys)):   # every lane still in use: the key count stays inferable
+            ab["notes"] = only   # a chart of long notes only (the hit list of the source is empty)
+            ab["holds_only"] = True
     if sg == "o2j" and rng.random() < 0.35:
         ab["ojn_event_at_zero"] = rng.choice([v for v in (111.0, 90.0, 240.0) if v != ab["tempo"][0][1]])  # the header tempo, overridden at 0 ms by an event
     if sg == "sm" and rng.random() < 0.4:
